@@ -143,6 +143,31 @@ def lean_files_for(pid):
     return seen
 
 
+def source_hashes(repo=None):
+    """AST-normalised sha256 of every module of the package under verification (comments / layout do not matter)"""
+    import ast, glob
+    repo = repo or REPO
+    out = {}
+    for f in sorted(glob.glob(os.path.join(repo, 'optiland', '**', '*.py'), recursive=True)):
+        rel = os.path.relpath(f, repo)
+        try:
+            out[rel] = hashlib.sha256(ast.dump(ast.parse(open(f).read())).encode()).hexdigest()[:20]
+        except Exception:  # noqa  (a file that does not parse is certainly different)
+            out[rel] = 'unparsable'
+    return out
+
+
+def source_drift():
+    """modules whose code differs from baseline/source_hashes.json (None when there is no baseline)"""
+    p = os.path.join(VERIF, 'baseline', 'source_hashes.json')
+    if not os.path.exists(p):
+        return None
+    base = json.load(open(p))['files']
+    cur = source_hashes()
+    return sorted(k for k in set(base) | set(cur) if base.get(k) != cur.get(k))
+
+
+SOURCE_DRIFT = None        # filled by main.py
 _AUDIT_CACHE = {}
 CORPUS_RESULT = None       # filled by main.py: what the regression corpus of this property did in this run
 
@@ -453,6 +478,7 @@ def finish(ctx, aud, level='proof', partial=(), assumptions=(), trusted=(), sear
         'known_findings_hit': sorted(ctx.known_hits),
         'notes': ctx.notes,
         'regression_corpus': CORPUS_RESULT if CORPUS_RESULT is not None else 'not run (replay or no corpus)',
+        'source_drift': SOURCE_DRIFT if SOURCE_DRIFT is not None else 'not computed',
     }
     ev = {'property_id': pid, 'tier': ctx.tier, 'seed': ctx.seed, 'level': level, 'coverage': cov,
           'assumptions': list(assumptions), 'wall_s': round(time.time() - ctx.t0, 2),
